@@ -39,7 +39,7 @@ def run_job(kind, key):
             r['witness'] = dict(function=c.name)
         return dict(job=key, records=recs, paths=npaths, lib=sorted(I.used_lib))
     if kind == 'lemmas':
-        return dict(job=key, records=pr.jigg_lemmas(I, PROP) + pr.jigg_call_site(I, PROP) + pr.view_lemmas(PROP) + pr.tree_view_obligations(I, PROP))
+        return dict(job=key, records=pr.jigg_lemmas(I, PROP) + pr.jigg_call_site(I, PROP) + pr.view_lemmas(PROP) + pr.tree_view_obligations(I, PROP) + pr.tree_py_records(I, PROP))
     raise CheckerError(kind)
 
 
@@ -57,7 +57,7 @@ def main(tier='quick', seed=0):
         'deductive part: the span elements of Jigg XML (ids, child / terminal references, rule labels, begin / end offsets, root, ids continuing across the trees of an n-best list). '
         'Tree view Leaf | Un | Bin with opaque node tags (category, labels and token hang off the tag), attribute meanings checked against the real tree.py properties in this check as well; '
         'the recursive calls of traverse are replaced by its contract (structural induction; the induction principle is the meta-rule, also for the lemmas ids / refs over the spec function span_rec)',
-        'assumed contracts: lxml etree.Element / SubElement / set / append / indexing build the elements they are told to; len(tree) = number of words (Tree.__len__ via Tree.leaves); '
+        'assumed contracts: lxml etree.Element / SubElement / set / append / indexing build the elements they are told to; '
         '_cat_multi_valued(cat) is an opaque function of the category (its text is compared by the bounded run); f-strings of integers are kept as structured text (str(int) injective); '
         'to_jigg_xml creates one converter per sentence and sends every tree of the n-best list through converter.process (checked on the ast: call-site obligation)',
         'the token elements of a sentence, the C&C XML reader, the Jigg reader and ccg2lambda\'s tree builder are decided by the BOUNDED stand-in: run-time contract decode(encode(t)) = view(t) with independent spec decoders '
@@ -65,6 +65,6 @@ def main(tier='quick', seed=0):
         'lxml serialise/parse round trip preserves tags, attributes and order for XML-representable strings',
     ]
     extra = dict(functions_under_contract=['depccg/printer/jigg_xml.py::_ConvertToJiggXML.process', 'depccg/printer/jigg_xml.py::_ConvertToJiggXML.process.traverse',
-                                           'depccg/printer/jigg_xml.py::_ConvertToJiggXML.spid (property, inlined)', 'depccg/printer/jigg_xml.py::to_jigg_xml (call-site shape of the converter)'],
+                                           'depccg/printer/jigg_xml.py::_ConvertToJiggXML.spid (property, inlined)', 'depccg/printer/jigg_xml.py::to_jigg_xml (call-site shape of the converter)', 'depccg/tree.py::Tree.leaves / leaves.rec / __len__ / tokens (len(tree) = number of words)'],
                  bounded_functions=['depccg/printer/jigg_xml.py::to_jigg_xml (token elements)', 'depccg/printer/xml.py::xml_of', 'depccg/tools/reader.py::read_xml / read_jigg_xml', 'ccg2lambda tree builder'])
     return c12.finish_with(PROP, tier, seed, t0, records, errors, extra, assumptions, ['printers_real.py'], level='exploration')
